@@ -424,9 +424,9 @@ func patterns(maxSegs int) []Pat {
 
 func generate(c *drv.Ctx) {
 	thorough := c.Tier == "thorough"
-	reps := 4
+	reps := 2
 	if thorough {
-		reps = 16
+		reps = 8
 	}
 	both := [][]int{{0, 1}, {1, 0}}
 	nExh := 0
@@ -435,9 +435,12 @@ func generate(c *drv.Ctx) {
 	if thorough {
 		v1 = valuesUpTo(2)
 	}
-	for _, b := range basePool {
+	for bi, b := range basePool {
 		for _, p := range patterns(2) {
 			ua, ub := uses(p, "a"), uses(p, "b")
+			if ua && ub && !thorough && bi%2 == 1 {
+				continue // quick: two-placeholder patterns under every other base spelling
+			}
 			va, vb := []string{"zz"}, []string{"{a}"} // values of names the pattern does not use
 			switch {
 			case ua && ub:
@@ -528,7 +531,7 @@ func generate(c *drv.Ctx) {
 	}
 	c.Extra["exhaustive_cases"] = nExh
 	// (iv) seeded random larger cases
-	n := 20000
+	n := 8000
 	if thorough {
 		n = 150000
 	}
